@@ -117,6 +117,15 @@ def _corrupt(row, args, how, rng):
         if not ks:
             return None
         args[ks[0]] = args[ks[0]][:-2]
+    elif how in ("ci_row", "ci_col"):
+        # (seed round 7) the first label vector as a 1 x n row or n x 1 column (what scipy.io.loadmat
+        # returns for a MATLAB vector), further label vectors stay flat: mixed shapes.  Whether the
+        # routine accepts the form or raises, the caller's array keeps bytes, dtype AND shape
+        ks = [i for i, s in enumerate(row["args"]) if s["k"] == "ci" and isinstance(args[i], np.ndarray)
+              and args[i].ndim == 1]
+        if not ks:
+            return None
+        args[ks[0]] = args[ks[0]].reshape((1, -1) if how == "ci_row" else (-1, 1)).copy()
     elif how == "asym" and mats:
         a = args[mats[0]].copy()
         a[0, 1] = a[0, 1] + 1
@@ -141,6 +150,8 @@ def single_call_jobs(ctx):
                 for b in row["bad"]:
                     variants.append(("bad%d" % len(variants), b))
                 variants += [("nonsquare", "nonsquare"), ("short_ci", "short_ci"), ("asym", "asym")]
+                if dtype in ("float", "int"):
+                    variants += [("ci_row", "ci_row"), ("ci_col", "ci_col")]
                 # option combinations: a branch may only be reached when two options are set together
                 # (one variant = one option in the registry), so every pair of variants with disjoint
                 # plain keyword sets is also exercised
